@@ -57,6 +57,11 @@ Definition mult_ok (m : mult) (n : nat) : bool :=
   | Many => true
   end.
 
+Definition enc_field (wrf : Z -> kind -> value -> option bytes) (p : item * list value) : option bytes :=
+  if mult_ok (i_mult (fst p)) (List.length (snd p))
+  then opt_concat (map (wrf (i_tag (fst p)) (i_kind (fst p))) (snd p))
+  else None.
+
 Section Writer.
 Variable E : env.
 Variable v : Z.
@@ -74,11 +79,7 @@ Fixpoint wr (fuel : nat) (tag : Z) (k : kind) (x : value) {struct fuel} : option
           | Some k =>
               let items := filter (active v) (c_wr k) in
               if negb (Nat.eqb (List.length items) (List.length fields)) then None else
-              let enc_field (p : item * list value) :=
-                  if mult_ok (i_mult (fst p)) (List.length (snd p))
-                  then opt_concat (map (wr f (i_tag (fst p)) (i_kind (fst p))) (snd p))
-                  else None in
-              match opt_concat (map enc_field (combine items fields)) with
+              match opt_concat (map (enc_field (wr f)) (combine items fields)) with
               | None => None
               | Some body => with_hdr tag STRUCT_CODE (zlen body) body
               end
@@ -87,6 +88,29 @@ Fixpoint wr (fuel : nat) (tag : Z) (k : kind) (x : value) {struct fuel} : option
       end
   end.
 End Writer.
+
+(* values the round-trip theorem speaks about: byte strings hold bytes, enumeration values are
+   members of their enumeration, structures have one field list per active item (recursively) *)
+Section WfValue.
+Variable E : env.
+Variable v : Z.
+Fixpoint wfv (fuel : nat) (k : kind) (x : value) {struct fuel} : bool :=
+  match fuel with
+  | O => false
+  | S f =>
+      match k, x with
+      | KPrim t, VP p => match p with VBytes b => bytes_ok b | _ => true end
+      | KEnum e, VP (VEnum n) => enum_mem E e n
+      | KStruct c, VS fields =>
+          match find_cls E c with
+          | None => false
+          | Some k => forallb (fun p => forallb (wfv f (i_kind (fst p))) (snd p))
+                              (combine (filter (active v) (c_wr k)) fields)
+          end
+      | _, _ => false
+      end
+  end.
+End WfValue.
 
 (* ------------------------------------------------------------------ reader *)
 
